@@ -52,4 +52,5 @@ package reorgdetector
 //@ func (rd *ReorgDetector) getTrackedBlocks
 //@   props C06
 //@   trusted
+//@   modifies nothing
 //@   sqltext "SELECT * FROM tracked_block ORDER BY subscriber_id;"
